@@ -57,6 +57,8 @@ def run(plan, acts):
                     m = loader.build_metamodel(xtuml.IntegerGenerator()) if (k + len(worlds)) % 3 else loader.build_metamodel()
                     worlds.append(new_world(plan, m))
                     ev['g'] = m.id_generator.peek() - 1 if isinstance(m.id_generator, xtuml.IntegerGenerator) else -1
+                    if len(act) > 1 and act[1].get('partial'):
+                        ev['partial'] = True          # built before the associations and identifiers were given
                     if len(act) > 1 and act[1].get('undecl'):
                         ev['undecl'] = act[1]['undecl']
                         ev['names'] = act[1].get('names') or {'_': []}
